@@ -9,6 +9,54 @@ BASELINE_OFF = ("cd /repo && env -u TOREAMUN_AMSHAN_VERIF /venv/bin/python -m py
 
 # pid -> (category, text, note, technique, design_ref, engine)
 CHECKS = {
+    "C01": ("model_checking",
+            "Bounded-exhaustive exploration of the real HdlcFrameReader: every octet string up to length N over a 5/7-symbol alphabet that contains "
+            "complete valid frames, every sequence of up to 6-8 frame tokens, and every stream within <=1-2 edits of realistic multi-frame streams, "
+            "each under one-shot, octet-wise and every single cut, in all four configurations; every returned frame is checked against an independent "
+            "reference (validity = length field + bit-serial FCS, exact header/payload octets) and every execution against the containment matcher.",
+            "Trusted: reference model mc/ref/hdlc.py (bound to the captured frames of tests/test_hdlc.py); data independence of the reader for octets outside the reduced alphabets.",
+            "bounded-exhaustive enumeration of input strings x chunkings on the real reader, reference-model oracle", "DESIGN.md 4/C01", "E1+E3"),
+    "C02": ("model_checking",
+            "Every frame shape of a product space (type/S x address lengths 1..4 x 1..4 x control x 7 payload contents x payload lengths incl. the 2047-octet maximum), all ordered "
+            "pairs and triples of a 6-frame pool with 1..3 fill flags and leading flag-free noise, each stream under one-shot, octet-wise, every single cut, fixed sizes 2..9 x every phase "
+            "and every pair of cuts (short streams); the real reader must return exactly the frames sent, valid, with the builder's fields.",
+            "Trusted: frame builder and the transcription of the statement's domain restrictions for the non-stuffing configurations (mc/ref/hdlc.py clean_domain).",
+            "zero-deviation exhaustive chunking enumeration over a bounded-exhaustive space of clean streams", "DESIGN.md 4/C02", "E3"),
+    "C04": ("model_checking",
+            "For 8 readout shapes the checksum field is replaced by every one of the 65 536 four-hex-digit values (plus letter-case variants), every single bit is flipped (pairs of bits in the thorough tier), "
+            "and 48 edge-case identification lines are substituted; each readout is evaluated as DataReadout(bytes) and as returned by the real ModeDReader under one-shot, octet-wise and every single cut, "
+            "against an independent dissection (first '!', CRC-16/ARC over '/'..'!', identification syntax).",
+            "Trusted: mc/ref/p1.py and mc/ref/fcs.py crc16_arc (bound to the captured readouts of tests/test_dlde.py).",
+            "complete enumeration of the 2^16 checksum field and of all single-bit faults x chunkings on the real code", "DESIGN.md 4/C04", "E5+E3"),
+    "C05": ("model_checking",
+            "Sequences of 1..3 well-formed readouts (7 shapes, 27 B..6 KiB), every proper suffix of a readout as leading tail, and long homogeneous/alternating streams (40 KiB quick, up to 300 KiB thorough) under "
+            "one-shot, octet-wise, every single cut, every pair of cuts and every fixed chunk size k x every phase; the real ModeDReader must return every readout once, in order, byte-identical and valid.",
+            "Trusted: readout builder mc/ref/p1.py. For chunk sizes above 96 the phases are the first/last 32 and 48 evenly spaced ones, not all.",
+            "zero-deviation exhaustive chunk-size x phase enumeration on long streams of the real reader", "DESIGN.md 4/C05", "E3"),
+    "C06": ("model_checking",
+            "Explicit-state graph of the real reader (nodes = digests of complete object snapshots) to depth N over octet and token alphabets, all four configurations, plus the chunk-commutation check: from every "
+            "node every chunk of 2..k events in one read() must give the outputs of the event-at-a-time path; by induction this decides every splitting of every stream up to the bound. Plus every <=1-2-edit "
+            "stream of realistic multi-frame streams and over-long frames compared across one-shot, octet-wise, every single cut and pairs of cuts.",
+            "Trusted: snapshot covers every attribute reachable from the reader (mc/snap.py), so merging states is sound; chunk-only states are added to the graph.",
+            "explicit-state model checking of the implementation (BFS over snapshot digests) + chunk commutation", "DESIGN.md 4/C06", "E2+E3"),
+    "C14": ("model_checking",
+            "Every octet string up to length 5-6 over 9 structural octets (HDLC) and every sequence of up to 4-5 tokens over a 15-token structural alphabet (P1), plus every stream within <=1-2 edits of genuine "
+            "readouts and frames, each one-shot and octet-wise through the bare readers (4 HDLC configurations) and both protocol classes with [HDLC,P1] and [P1,HDLC]; no exception may escape read(), "
+            "data_received() or the four message properties, and a clean suffix must still be delivered.",
+            "Trusted: the alphabets contain every structural character the statement names; bytes outside them are covered only through the edit alphabets.",
+            "bounded-exhaustive enumeration of noise strings on the real readers and protocols, exception/usable oracle", "DESIGN.md 4/C14", "E1+E3"),
+    "C16": ("model_checking",
+            "Every noise prefix up to the bound over the reduced octet alphabets and the token alphabets, every truncation of every pool message (also followed by 7D, 7E, 7D7E), announced-length headers, 1-edit messages, "
+            "long flag-free / LF-free runs, each followed by a clean suffix and run one-shot, noise-octet-wise, with cuts at the boundary -2..+2 and octet-wise; the valid messages returned must contain every suffix "
+            "message but possibly the first (stuffing, P1) / every flag-free frame starting more than 2047 + its length after the noise (no stuffing).",
+            "Trusted: suffix construction (own opening and closing flag per frame; the shared-flag form is checked and reported under its own kind).",
+            "bounded-exhaustive enumeration of noise prefixes x clean suffix on the real readers", "DESIGN.md 4/C16", "E1"),
+    "C19": ("model_checking",
+            "Lasso exploration: for every prefix of <=1 token and every cycle of <=2-3 tokens over 9-token alphabets of stream patterns per reader (flag fill, junk, escape, never-ending frame, 4 KiB runs, frames; '/', "
+            "identification line, data line, end line, 100 bytes without LF, ...), under per-token / per-cycle / per-n-cycles chunking, the real reader is pumped until its complete snapshot repeats at a cycle boundary - "
+            "which closes the loop and decides boundedness for the infinite stream - while the deep size after every read() is held against a constant bound + 2 x chunk.",
+            "Trusted: determinism of the reader and completeness of the snapshot; leaks needing aperiodic input or longer cycles are out of reach.",
+            "lasso (prefix + cycle) state-repetition search on the real reader with a size invariant", "DESIGN.md 4/C19", "E4"),
     "C03": ("model_checking",
             "Complete enumeration of the FCS step function's domain (all 2^16 registers x 2^8 octets = all 2^24 "
             "three-octet messages through the public update()), all 2^16 residues with exact and bit-flipped "
